@@ -511,6 +511,9 @@ func (h *DijkstraBlockHeader) UnmarshalCBOR(cborData []byte) error {
 	if _, err := cbor.Decode(top[1], &signature); err != nil {
 		return err
 	}
+	// Start from a clean embedded header so that nothing cached from a
+	// previous decode into this object (e.g. the lazily computed hash) survives
+	h.BabbageBlockHeader = babbage.BabbageBlockHeader{}
 	h.Body = body
 	h.Signature = signature
 	h.LeiosHeaderExtension = bodyElems[babbageHeaderBodyFieldCount:]
